@@ -22,6 +22,15 @@ def cases(tier, rng):
         bracket = i % 2 == 0
         g = ref.Gen(rng, n=n, use_sub=bracket, bracket=bracket, gates=("X", "H", "Rx", "CX", "I_X"))
         p = g.program()
+        if i % 3 == 0 and not bracket:
+            # lexical scoping of arguments: the callee's parameter has the same NAME as an identifier used inside the
+            # caller's argument (an index, a register) - the argument still denotes the caller's binding
+            p["macros"].append(("cfl", ["j", "x"], ("seq", [("gate", "X", [("id", "x")]), ("gate", "Rx", [("id", "x"), ("id", "j")])])))
+            p["macros"].append(("chi", ["j"], ("seq", [("gate", "cfl", [("num", 0), ("q", "q", "j")])])))
+            p["macros"].append(("con", ["rr"], ("seq", [("gate", "X", [("id", "rr")])])))
+            p["macros"].append(("ctw", ["rr"], ("seq", [("gate", "con", [("q", "rr", n - 1)])])))
+            p["body"].append(("gate", "chi", [("num", rng.randrange(n))]))
+            p["body"].append(("gate", "ctw", [("id", "q")]))
         text = ref.to_text(p)
         try:
             ref.static_valid(p)
